@@ -43,7 +43,7 @@ def gen_cases(ctx):
     ]
     combos = list(itertools.product(range(len(olds)), ROUTES, DESTS, PAYLOADS, PROVS))
     rng.shuffle(combos)
-    n = ctx.budget(40000, len(combos) * 12)
+    n = ctx.budget(26000, len(combos) * 12)
     i = 0
     k = 0
     while i < n:
@@ -303,6 +303,18 @@ def run_case(ctx, case):
                     w.observe()
                 except world.Abort:
                     return
+    # a second state point change through the same handle: whatever the first operation left in the handle
+    # (paths, file names, lazily created objects) must describe the job's new home
+    if changed and route != "clone" and act < len(w.handles):
+        try:
+            w.apply(["spset", act, "zz", 9])
+            w.observe()
+            w.observe_handles(full=True)
+            w.apply(["docset", act, "z", "token2"])
+            w.observe()
+        except world.Abort:
+            ctx.count("histories_aborted_after_violation")
+            return
     # independent handles taken before the operation still work on their own
     ctx.monitor("independent_handles_work")
     for idx in (dc, pk):
